@@ -5,6 +5,7 @@
 package seqx
 
 import (
+	"crypto/sha256"
 	"runtime"
 	"sort"
 	"sync"
@@ -70,7 +71,7 @@ func (s *Search) Run() Stats {
 		w = runtime.NumCPU()
 	}
 	st := Stats{Outcomes: map[string]int{}, Complete: true}
-	seen := map[string]struct{}{}
+	seen := map[[16]byte]struct{}{}
 	root := s.Exec(nil)
 	st.States = 1
 	if root.Violation != nil {
@@ -78,7 +79,7 @@ func (s *Search) Run() Stats {
 		return st
 	}
 	if root.Key != "" {
-		seen[root.Key] = struct{}{}
+		seen[hkey(root.Key)] = struct{}{}
 	}
 	level := []item{{nil, root.Enabled}}
 	for depth := 0; depth < s.MaxDepth && len(level) > 0; depth++ {
@@ -135,10 +136,11 @@ func (s *Search) Run() Stats {
 				continue
 			}
 			if o.res.Key != "" {
-				if _, ok := seen[o.res.Key]; ok {
+				hk := hkey(o.res.Key)
+				if _, ok := seen[hk]; ok {
 					continue
 				}
-				seen[o.res.Key] = struct{}{}
+				seen[hk] = struct{}{}
 			}
 			st.States++
 			if len(o.hist) > st.MaxDepth {
@@ -174,4 +176,13 @@ func less(a, b []int) bool {
 		}
 	}
 	return len(a) < len(b)
+}
+
+// hkey compresses a canonical key to 128 bits of SHA-256 (collisions are negligible and
+// could only cost coverage of one state, never a false alarm).
+func hkey(k string) [16]byte {
+	h := sha256.Sum256([]byte(k))
+	var o [16]byte
+	copy(o[:], h[:16])
+	return o
 }
